@@ -7,11 +7,12 @@
 //
 //	case <n> cf cap <bytes> persist <0|1> tip <block tip> ftip <filter tip> maxrange <wire const>
 //	get <target> <regular> <batch n|f|r> <maxBatch> <cont> <verdict> [ resp ... ]
-//	   => <ret:fid:v | err:kind> prog [n|p|f ...] rg <start>:<stop>|- cache [blk:fid:size:v ...] db [blk:fid:v ...]
+//	   => <ret:fid:v | err:kind> prog [n|p|f ...] rg <start>:<stop>|- cache [blk:fid:size:v ...] db [blk:fid:v ...] puts [blk:fid ...]
+//	   (puts: what the call handed to FilterDB.PutFilters, in order)
 //	recommit <h> [ header ids ... ] => ok
 //	restart => ok
 //
-// resp = c:<ftypeOk>:<blk>:<decodes>:<fid>:<size>:<prev>:<hdr>  (a cfilter message; hdr = id of
+// resp = c:<ftypeOk>:<blk>:<decodes>:<fid>:<size>:<prev>:<hdr>:<peer>  (a cfilter message; hdr = id of
 // MakeHeaderForFilter(filter, committed header <prev> of the block before blk), 0 if not computable)
 // or o (another message).  blk = height of the named block, or an id > 100000
 // for a hash the header store does not know.  Header ids: the true header of
@@ -210,25 +211,56 @@ func (u *universe) setFilterHeaders(h int, hdrs []chainhash.Hash) {
 // ---------------------------------------------------------------------------
 
 // countDB wraps the real filter database and counts the filters written.
+type putRec struct {
+	hash   chainhash.Hash
+	nbytes []byte
+}
+
 type countDB struct {
 	filterdb.FilterDatabase
-	mu sync.Mutex
-	n  int
+	mu  sync.Mutex
+	n   int
+	log []putRec // every filter handed to PutFilters, in order
 }
 
 func (c *countDB) PutFilters(fs ...*filterdb.FilterData) error {
 	err := c.FilterDatabase.PutFilters(fs...)
 	c.mu.Lock()
 	c.n += len(fs)
+	for _, f := range fs {
+		var nb []byte
+		if f.Filter != nil {
+			nb, _ = f.Filter.NBytes()
+		}
+		c.log = append(c.log, putRec{*f.BlockHash, nb})
+	}
 	c.mu.Unlock()
 	return err
+}
+
+// takeLog returns and clears the put log.
+func (c *countDB) takeLog() []putRec {
+	c.mu.Lock()
+	defer c.mu.Unlock()
+	l := c.log
+	c.log = nil
+	return l
 }
 
 func (c *countDB) count() int { c.mu.Lock(); defer c.mu.Unlock(); return c.n }
 
 type resp struct {
-	msg wire.Message
-	tok string
+	msg  wire.Message
+	tok  string
+	peer int  // sender (0: the default peer 1)
+	good bool // the true filter of the block it names
+}
+
+func peerAddr(p int) string {
+	if p == 0 {
+		p = 1
+	}
+	return fmt.Sprintf("10.0.0.%d:8333", p)
 }
 
 type disp struct {
@@ -258,7 +290,7 @@ func (d *disp) Query(reqs []*query.Request, _ ...query.QueryOption) chan error {
 	}
 	if len(reqs) >= 1 {
 		for _, r := range d.resps {
-			p := reqs[0].HandleResp(reqs[0].Req, r.msg, "10.0.0.1:8333")
+			p := reqs[0].HandleResp(reqs[0].Req, r.msg, peerAddr(r.peer))
 			switch {
 			case p.Finished && p.Progressed:
 				d.prog = append(d.prog, "f")
@@ -434,7 +466,7 @@ func (w *world) mkCF(t *tr.W, ftype wire.FilterType, bh chainhash.Hash, data []b
 	}
 	w.touched[blk] = true
 	m := wire.NewMsgCFilter(ftype, &bh, data)
-	return resp{msg: m, tok: fmt.Sprintf("c:%s:%d:%s:%d:%d:%d:%d", b01(ftype == wire.GCSFilterRegular), blk, b01(dec), fid, len(data), prev, hdr)}
+	return resp{good: kind == "good", msg: m, tok: fmt.Sprintf("c:%s:%d:%s:%d:%d:%d:%d", b01(ftype == wire.GCSFilterRegular), blk, b01(dec), fid, len(data), prev, hdr)}
 }
 
 func nbytes(f *gcs.Filter) []byte {
@@ -596,6 +628,7 @@ func (w *world) get(t *tr.W, target int, th chainhash.Hash, regular bool, batch 
 	}
 	w.touched[target] = true
 	before := w.fdb.count()
+	w.fdb.takeLog()
 	ch := make(chan callRes, 1)
 	go func() {
 		defer func() {
@@ -656,7 +689,12 @@ func (w *world) get(t *tr.W, target int, th chainhash.Hash, regular bool, batch 
 		}
 	}
 	cache, db := w.dump()
-	return fmt.Sprintf("%s prog [%s] rg %s cache %s db %s", res, strings.Join(d.prog, " "), d.rg, cache, db)
+	// the put log of this call: what was handed to FilterDB.PutFilters, in order
+	var puts []string
+	for _, pr := range w.fdb.takeLog() {
+		puts = append(puts, fmt.Sprintf("%d:%d", w.blkID(pr.hash), w.filterID(pr.nbytes)))
+	}
+	return fmt.Sprintf("%s prog [%s] rg %s cache %s db %s puts [%s]", res, strings.Join(d.prog, " "), d.rg, cache, db, strings.Join(puts, " "))
 }
 
 // expected range, only to aim the generated responses (not an oracle)
@@ -910,9 +948,57 @@ func runCase(t *tr.W, r *rand.Rand, mode string) {
 				}
 			}
 		}
+		// Duplicated VALID responses in a batch: the same peer repeating itself, or the late answer of a
+		// peer the work manager gave up on next to the answer of the peer the request was re-sent to;
+		// right after the original or anywhere later (before or after the target's filter arrived).
+		multiPeer := r.Intn(3) == 0
+		if multiPeer {
+			for i := range resps {
+				resps[i].peer = 1 + r.Intn(3)
+			}
+		}
+		if known && batch != "n" && hi > lo && len(resps) > 0 && len(resps) < 400 && r.Intn(2) == 0 {
+			for n := 1 + r.Intn(3); n > 0; n-- {
+				var goods []int
+				for i, rp := range resps {
+					if rp.good {
+						goods = append(goods, i)
+					}
+				}
+				if len(goods) == 0 {
+					break
+				}
+				i := goods[r.Intn(len(goods))]
+				dup := resps[i]
+				who := "same-peer"
+				if r.Intn(2) == 0 {
+					dup.peer = 1 + (dup.peer+r.Intn(2))%3 + 1
+					who = "other-peer"
+				}
+				at := i + 1
+				if r.Intn(3) > 0 {
+					at = i + 1 + r.Intn(len(resps)-i)
+				}
+				resps = append(resps[:at], append([]resp{dup}, resps[at:]...)...)
+				when := "before-target"
+				for _, rp := range resps[:at] {
+					if rp.good && strings.HasPrefix(rp.tok, fmt.Sprintf("c:1:%d:", target)) {
+						when = "after-target"
+					}
+				}
+				t.Hit("cf.dup.valid." + who + "." + when)
+			}
+		}
 		toks := make([]string, len(resps))
 		for i, rp := range resps {
 			toks[i] = rp.tok
+			if rp.tok != "o" {
+				p := rp.peer
+				if p == 0 {
+					p = 1
+				}
+				toks[i] = fmt.Sprintf("%s:%d", rp.tok, p)
+			}
 		}
 		t.Hit("cf.batch." + batch)
 		obs := w.get(t, target, th, regular, batch, maxBatch, cont, verdict, resps)
